@@ -376,7 +376,8 @@ def signatures(case, findings, acc=None):
     out = []
     for site, kind, exp, obs in findings:
         if case.get("mal"):
-            feat = case["mal"]["name"] if kind.startswith("malformed input") else "malformed table"
+            name = T.crossed_malformation_name(case) if case["mal"]["name"] in ("id_x_dtype", "cell_x_dtype") else case["mal"]["name"]
+            feat = name if kind.startswith("malformed input") else "malformed table"
         else:
             feat = minimal_feature(case, site, kind, acc)
         out.append((f"{site}|{kind}|{feat}", exp, obs))
@@ -445,6 +446,11 @@ def bounds(tier):
         "missing_patterns_all": "every pattern of every shape with <= 3 rows x every permutation" if q else "every pattern of every shape with <= 4 rows (covariate layout: <= 3 rows) x every permutation",
         "identifier_types": sorted(T.ID_TYPES), "forms": ["columns", "index"],
         "event_layout": "1..3 individuals, all row orders, indicator alphabets E0..E4",
+        "crossed_malformations": "every identifier malformation (missing nan/None/NA, empty, negative, float, fractional, mixed) x every identifier dtype "
+        "(object text, numeric-looking text, int64, string, Int64, category of text / of int / with unused categories) x columns/index form, and "
+        "every bad cell (missing, +inf, -inf, text) x column role (TIME, value, event time, event indicator, covariate) x container dtype "
+        "(float64, float32, Float64, Int64, object, string, category): at every row position, in every layout, 2 row orders; "
+        "combinations that pandas cannot represent are skipped and counted (counter not_constructible_total)",
         "malformations": f"{len(T.MALFORMATIONS)} kinds x every row position x row/individual scope x 3 row orders x 2 missing patterns, 5-row base table (3 rows in the event layout)",
     }
 
@@ -494,6 +500,11 @@ def shards(tier, seed):
     for layout in ("visit", "event", "joint", "covariate"):
         for order in MALFORM_ORDERS:
             out.append({"family": "malform", "layout": layout, "order": order})
+    # (5) identifier malformation x identifier dtype x form, bad cell x column role x container dtype: every row, every layout
+    for layout in ("visit", "event", "joint", "covariate"):
+        for order in ("canonical", "interleaved"):
+            out.append({"family": "crossed", "what": "id", "layout": layout, "order": order})
+            out.append({"family": "crossed", "what": "cell", "layout": layout, "order": order})
     key = lambda s: (sum(s["shape"]) if "shape" in s else 3, s["family"])  # noqa: E731
     return sorted(out, key=key)
 
@@ -536,6 +547,33 @@ def _cases_of(shard):
                         for i in range(len(rows)):
                             if T.malformation_applies(base, name, i, mode):
                                 yield {**base, "mal": {"name": name, "row": i, "mode": mode}}
+    elif fam == "crossed":
+        layout = shard["layout"]
+        rows = MALFORM_ORDERS[shard["order"]]
+        if layout == "event":
+            rows = [r for r in rows if r[1] == 0]
+        base = {"layout": layout, "ages": "A0", "rows": rows, "nan": 0 if layout == "event" else mixed_pattern(len(rows))}
+        if layout in ("event", "joint"):
+            base["ev"] = "E1"
+        if layout == "covariate":
+            base["ncov"] = 1
+        if shard["what"] == "id":
+            for idtype in T.ID_TYPES:
+                for form in ("columns", "index"):
+                    for kind, scope in T.ID_MALFORMATIONS.items():
+                        for i in range(len(rows) if scope == "row" else 1):
+                            yield {**base, "idtype": idtype, "form": form,
+                                   "mal": {"name": "id_x_dtype", "kind": kind, "row": i, "mode": scope}}
+        else:
+            for role, (layouts, _, _) in T.CELL_ROLES.items():
+                if layout not in layouts:
+                    continue
+                for form in (("columns", "index") if role == "TIME" else ("columns",)):
+                    for bad in T.CELL_BAD:
+                        for container in T.CELL_CONTAINERS:
+                            for i in range(len(rows)):
+                                yield {**base, "idtype": "str", "form": form,
+                                       "mal": {"name": "cell_x_dtype", "role": role, "bad": bad, "container": container, "row": i, "mode": "row"}}
     else:  # pragma: no cover
         raise ValueError(fam)
 
@@ -552,7 +590,13 @@ def run_shard(shard):
     if shard["family"] == "malform":
         want_sample = shard["order"] == "interleaved" and shard["layout"] == "joint"
     for case in _cases_of(shard):
-        outcome, findings, n_exec = check_case(case)
+        try:
+            outcome, findings, n_exec = check_case(case)
+        except T.NotConstructible:
+            # the combination cannot be written down in pandas: skipped explicitly, and counted
+            acc.count("not_constructible:" + T.crossed_malformation_name(case))
+            acc.count("not_constructible_total")
+            continue
         acc.evaluation(n_exec)
         acc.outcome(outcome)
         acc.count("cases:" + shard["family"] + ":" + case["layout"])
